@@ -1,5 +1,6 @@
+-- Library root: models, drivers and every property-theorem module, so that `lake build` checks all proofs.
 import AxVerif.Model.Bytes
 import AxVerif.Model.Wire
-import AxVerif.Generated
+import AxVerif.Generated.Wire
 import AxVerif.Driver.Wire
 import AxVerif.Thm.C20
